@@ -297,6 +297,10 @@ def check(case, rec):
                     check_markers(tag, line, kind, pts, x, fs, a, b, True)
             elif target in ('plot_burst_detect_summary', 'Bycycle.plot'):
                 por, interp = case['plot_only_result'], case['interp']
+                if case.get('np_flags'):
+                    # switches computed from data arrive as numpy booleans (df['is_burst'].any(), len(df) > np.int64(500)) or 0 / 1
+                    cast_ = [np.bool_, np.bool_, int][case['np_flags'] % 3]
+                    por, interp = cast_(por), cast_(interp)
                 if target == 'plot_burst_detect_summary':
                     guarded(plot_burst_detect_summary, df, x, fs, dict(th_plot), xlim=xlim, plot_only_result=por, interp=interp)
                     thp = th_plot
@@ -333,7 +337,7 @@ def check(case, rec):
                     check_summary_axes(tag + '[second-drawing]', plt.gcf().axes, df, x, fs, th2, a, b, por, interp)
             else:
                 column = case['param'] if case['param'] in df.columns else ('monotonicity' if 'monotonicity' in df.columns else 'burst_fraction')
-                guarded(plot_burst_detect_param, df, x, fs, column, case['thresh'], xlim=xlim, interp=case['interp'])
+                guarded(plot_burst_detect_param, df, x, fs, column, case['thresh'], xlim=xlim, interp=(np.bool_(case['interp']) if case.get('np_flags') else case['interp']))
                 check_param_axes(tag, plt.gcf().axes[0], df, fs, column, case['thresh'], a, b, case['interp'], n)
     finally:
         plt.close('all')
@@ -378,7 +382,7 @@ def strategy(draw, tier):
             'plot_only_result': draw(st.sampled_from([True, True, True, False])) if second else draw(st.booleans()),
             'interp': draw(st.booleans()), 'param': draw(st.sampled_from(['monotonicity', 'amp_consistency', 'period_consistency', 'amp_fraction', 'burst_fraction'])),
             'thresh': draw(st.sampled_from([0.0, 0.3, 0.5, 0.8, 1.0])), 'th_order': draw(st.sampled_from([0, 0, 1, 2])),
-            'second_drawing': second, 'colors': draw(st.one_of(st.just(0), st.integers(1, 8))), 'recompute_first': draw(st.integers(0, 3)), 'epoch': draw(st.one_of(st.just(0), st.just(0), st.integers(1, 30))), 'row_subset': draw(st.one_of(st.just(0), st.just(0), st.integers(1, 4094)))}
+            'second_drawing': second, 'np_flags': draw(st.sampled_from([0, 0, 1, 2, 3])), 'colors': draw(st.one_of(st.just(0), st.integers(1, 8))), 'recompute_first': draw(st.integers(0, 3)), 'epoch': draw(st.one_of(st.just(0), st.just(0), st.integers(1, 30))), 'row_subset': draw(st.one_of(st.just(0), st.just(0), st.integers(1, 4094)))}
 
 
 PARTS = [Part('figures', check, strategy=strategy, budget={'quick': 640, 'thorough': 12000}, shards={'quick': 16, 'thorough': 16},
